@@ -17,6 +17,7 @@
 //!
 //! Lines:
 //!   scen <tokens>          one scenario;   output  `<r1>,<r2>,... | <steps of op1> ; <steps of op2> ...`
+//!   scenq <tokens>         the same without the step logs
 //!   enum <i> <tokens>      every step k and every canonical variant of token i (0-based);
 //!                          output one field `X<k>.<variant>=<r1>,<r2>,...` per combination
 //! Each part of a scenario between two crashes runs in its own child process (`nvh child crash …`);
@@ -743,12 +744,16 @@ impl State for S {
 
 pub fn step_for(stream: &str, ws: &[&str]) -> String {
     match ws {
-        ["scen", rest @ ..] => {
+        [kind @ ("scen" | "scenq"), rest @ ..] => {
             let toks: Vec<String> = rest.iter().map(|s| s.to_string()).collect();
             if toks.iter().any(|t| parse_tok(t).is_none()) {
                 return "bad-op".into();
             }
             let outs = run_scenario(stream, &toks);
+            if *kind == "scenq" {
+                // outcomes only (witnesses of known findings: independent of the step log)
+                return join_results(&outs);
+            }
             let steps: Vec<&str> = outs.iter().map(|o| o.steps.as_str()).collect();
             format!("{} | {}", join_results(&outs), steps.join(" ; "))
         }
